@@ -193,7 +193,7 @@ def run(ctx):
                             ("guard:seed-restored-in-finally-but-cache-keeps-the-iterator", {'ShuffleMode = "local"': 'ShuffleMode = "finally"'}, "ParamsStable"),
                             ("guard:drop-forgets-iterator", {"DropKillsIter = FALSE": "DropKillsIter = TRUE"}, "CacheSound"),
                             ("save+sizes", SIZE_MODEL, None),
-                            ("guard:save-collects-one-reused-buffer", dict(SIZE_MODEL, **{"AliasBatches = FALSE": "AliasBatches = TRUE"}), "SavedSound")):
+                            ("guard:save-collects-one-reused-buffer", {"N = 4": "N = 5", "BatchSet = {}": "BatchSet = {2}", "MaxOps = 3": "MaxOps = 1", "AliasBatches = FALSE": "AliasBatches = TRUE"}, "SavedSound")):
         cfg = tracecheck._cfg("EnvRead.cfg", sub, ctx.scratch, "er_%s.cfg" % nm.replace(":", "_"))
         r = tlc.run("EnvRead", cfg, ctx.scratch, workers=8, timeout=3600, coverage=(expect is None))
         ctx.add_tlc("EnvRead " + nm, r, required_actions=((["Open", "Next1", "Drop", "Params", "Pickle"] + (["Save"] if nm == "save+sizes" else [])) if expect is None else ()))
@@ -298,9 +298,11 @@ def run(ctx):
     shists = [json.loads(x) for x in sorted({json.dumps(h, sort_keys=True) for h in shists})]
     if len(shists) < 100: raise RuntimeError("only %d histories with save()" % len(shists))
     rng2 = random.Random(ctx.seed * 7919 + 4)
-    nsized = 0
+    nsized = 0; import time as _t; _t0 = _t.time()
     for batch in sorted({h["batch"] for h in shists}):
         mine = [h for h in shists if h["batch"] == batch]
+        # the histories in which something is read after a save() (the others only show that save() does not raise)
+        mine = [h for h in mine if any(s_["op"] in ("full", "partial") and s_["k"] > 0 and any(t["op"] == "save" for t in h["hist"][:j]) for j, s_ in enumerate(h["hist"]))] or mine
         L = real_pos(mine[0]["size"], batch); SB = sized_bases(L); done = 0; tries = 0
         while done < ctx.pick(3, 6) and tries < 40:
             tries += 1
@@ -316,14 +318,15 @@ def run(ctx):
             except Exception:
                 continue            # not a type-compatible chain
             done += 1
-            for h in rng2.sample(mine, ctx.pick(3, 10)):
+            for h in rng2.sample(mine, ctx.pick(2, 10)):
                 ctx.case(json.dumps([desc, h])); nsized += 1
                 bad = replay(factory, h["hist"], ref, ref_params, kmap=lambda k, batch=batch: real_pos(k, batch), tmp=tmp)
                 if bad:
                     sig, what = bad
                     ctx.violation(sig, "%s   pipeline=%s history=%s" % (what, desc, json.dumps([(s_["op"], s_["k"]) for s_ in h["hist"]])), dict(pipeline=desc, history=h))
     ctx.extra["sized_save_cases"] = nsized
-    if nsized < 30: raise RuntimeError("only %d sized save() cases ran" % nsized)
+    ctx.traces += nsized; ctx.extra["sized_save_wall_s"] = round(_t.time() - _t0, 1)
+    if nsized < 20: raise RuntimeError("only %d sized save() cases ran" % nsized)
     # save()/from_save(): the saved form read repeatedly
     from coba.environments import Environments
     for desc, factory in pipes[:ctx.pick(6, 30)] + [p for p in pipes[20:31]]:
